@@ -24,7 +24,7 @@ From TS Require Import Spec.C15RenderKtSc.
 From TS Require Proofs.C15_KotlinFile.
 From TS Require Proofs.C15_ScalaFile.
 From TS Require Import Model.MultiFile Spec.C15MultiSpec.
-From TS Require Model.Writer Proofs.C10Multi Proofs.C15Multi Proofs.C15MultiWitness.
+From TS Require Model.Writer Proofs.C10Multi Proofs.C15Multi Proofs.C15MultiWitness Proofs.C15MultiMore.
 Import ListNotations.
 
 (* ---- front end (after the repair of parse_comment_attrs): a doc attribute with value v - which is what `/// v`,
@@ -956,3 +956,69 @@ Theorem C15_kt_multi_run : forall (uc : unicode) (cfg : kt_config) (plan : list 
                   c15_contained C15kt LCode (mark (c15_file_pieces C15kt parts)) = true.
 Proof. exact Proofs.C15Multi.C15_kt_multi_run. Qed.
 Print Assumptions C15_kt_multi_run.
+
+(* ---- MULTI-FILE MODE, Swift, Go, Python: no import lines are printed from the import map, but the multi-file generators
+   differ from the single-file ones by the printer state that arrives from the previous crate and is never cleared (Go:
+   the import paths; Python: import table, TypeVars, translated types; Swift: "CodableVoid needed", and no CodableVoid
+   trailer is printed in this mode - it goes to Codable.swift).  Under the hypotheses of C15_sw_file / C15_go_file /
+   C15_py_file (Swift: without the one on codablevoid constraints), from ANY incoming state satisfying the invariant of the
+   single-file proof (Proofs.C15_GoFile.go_inv: every import path printable between double quotes;
+   Proofs.C15_PythonFile.pyf_inv: import table plain, TypeVars plain and printable raw between double quotes; the initial
+   states satisfy them), the file of one crate has the conclusion of the single-file theorem, and hands the invariant on.
+   The import / TypeVar / helper blocks printed are those of the state reached AFTER the crate's last item, previous
+   crates' entries included.  (Scala's generate_types is one function for both modes: C15_sc_file.) ---- *)
+Theorem C15_sw_multi_file : forall (uc : unicode) (cfg : sw_config),
+  c15_sw_raw (sw_prefix cfg) = true ->
+  c15_mappings_plain C15sw (sw_type_mappings cfg) = true ->
+  forallb (c15_plain C15sw) (sw_default_decorators cfg) = true ->
+  forallb (c15_plain C15sw) (sw_default_generic_constraints cfg) = true ->
+  c15_sw_version_ok (sw_version cfg) = true ->
+  forall (st : sw_state) pd text (st' : sw_state),
+  forallb c15_sw_item_ok (items_of pd) = true ->
+  sw_generate_multi uc cfg st pd = Ok (text, st') ->
+  exists items parts,
+    topsort (items_of pd) = Ok items /\ Permutation items (items_of pd) /\
+    text = text_of (c15_file_pieces C15sw parts) /\
+    docs_of (c15_file_pieces C15sw parts) = flat_map (c15_sw_item_docs uc) items /\
+    c15_contained C15sw LCode (mark (c15_file_pieces C15sw parts)) =
+    forallb safe_sw (flat_map (c15_sw_item_docs uc) items).
+Proof. exact Proofs.C15MultiMore.C15_sw_multi_file. Qed.
+Print Assumptions C15_sw_multi_file.
+
+Theorem C15_go_multi_file : forall (uc : unicode), unicode_ok uc -> forall (cfg : go_config),
+  c15_go_mappings_ok (go_type_mappings cfg) = true ->
+  forallb (forallb is_ascii) (go_uppercase_acronyms cfg) = true ->
+  c15_plain C15go (go_package cfg) = true ->
+  forall (st : go_state) pd text (st' : go_state),
+  forallb c15_go_item_ok (items_of pd) = true -> Proofs.C15_GoFile.go_inv st ->
+  go_generate_multi uc cfg st pd = Ok (text, st') ->
+  let header := if go_no_version_header cfg then []
+                else [lit "Code generated by typeshare " ++ go_version cfg ++ lit ". DO NOT EDIT."] in
+  exists items parts,
+    topsort (items_of pd) = Ok items /\ Permutation items (items_of pd) /\
+    text = text_of (c15_file_pieces C15go parts) /\
+    docs_of (c15_file_pieces C15go parts) = header ++ flat_map c15_item_docs_helpers_first items /\
+    c15_contained C15go LCode (mark (c15_file_pieces C15go parts)) =
+    forallb safe_go (header ++ flat_map c15_item_docs_helpers_first items) /\
+    Proofs.C15_GoFile.go_inv st'.
+Proof. exact Proofs.C15MultiMore.C15_go_multi_file. Qed.
+Print Assumptions C15_go_multi_file.
+
+Theorem C15_py_multi_file : forall (uc : unicode), unicode_ok uc -> forall (cfg : py_config),
+  c15_mappings_plain C15py (py_type_mappings cfg) = true ->
+  c15_py_version_ok (py_version cfg) = true ->
+  forall (st : py_state) pd text (st' : py_state),
+  forallb c15_py_item_ok (items_of pd) = true ->
+  forallb c15_py_item_typevars_ok (items_of pd) = true ->
+  Proofs.C15_PythonFile.pyf_inv st ->
+  py_generate_multi uc cfg st pd = Ok (text, st') ->
+  let header := if py_no_version_header cfg then [] else [c15_py_header_line (py_version cfg)] in
+  exists items parts,
+    topsort (items_of pd) = Ok items /\ Permutation items (items_of pd) /\
+    text = text_of (c15_file_pieces C15py parts) /\
+    docs_of (c15_file_pieces C15py parts) = header ++ map (c15_site_text C15py) (flat_map c15_py_item_sites items) /\
+    c15_contained C15py LCode (mark (c15_file_pieces C15py parts)) =
+      forallb (c15_site_ok C15py) (flat_map c15_py_item_sites items) /\
+    Proofs.C15_PythonFile.pyf_inv st'.
+Proof. exact Proofs.C15MultiMore.C15_py_multi_file. Qed.
+Print Assumptions C15_py_multi_file.
